@@ -63,8 +63,14 @@ Step ==
        \* acknowledgement was an error may or may not have taken effect
        [] t.ev = "wack" -> /\ wlive' = (IF t.ok = 1 /\ t.kind = "insert" THEN wlive \cup {t.id}
                                         ELSE IF t.ok = 1 /\ t.kind = "remove" THEN wlive \ {t.id} ELSE wlive)
-                           /\ wmaybe' = (IF t.ok = 1 THEN wmaybe \ {t.id} ELSE wmaybe \cup {t.id})
-                           /\ UNCHANGED <<cat, mem, maybe, ref, order, viol>>
+                           /\ wmaybe' = (IF t.ok = 1 THEN wmaybe \ {t.id} ELSE IF t.res = "err" THEN wmaybe \cup {t.id} ELSE wmaybe)
+                           \* acknowledgements and refusals are truthful about the item (sequential client, so trace order is real time)
+                           /\ viol' = viol
+                                \cup (IF t.res = "ok" /\ t.kind = "insert" /\ t.id \in wlive \ wmaybe THEN {<<l, "DuplicateInsertAcked">>} ELSE {})
+                                \cup (IF t.res = "ok" /\ t.kind \in {"remove", "update"} /\ t.id \notin wlive \cup wmaybe THEN {<<l, "AbsentItemAcked">>} ELSE {})
+                                \cup (IF t.res = "exists" /\ t.id \notin wlive \cup wmaybe THEN {<<l, "SpuriousExists">>} ELSE {})
+                                \cup (IF t.res = "notfound" /\ t.id \in wlive \ wmaybe THEN {<<l, "SpuriousNotFound">>} ELSE {})
+                           /\ UNCHANGED <<cat, mem, maybe, ref, order>>
        [] t.ev = "found" -> LET got == {t.ids[j] : j \in 1..Len(t.ids)} IN
                             /\ viol' = viol \cup (IF t.err # "" THEN {<<l, "SearchUnavailable">>}
                                                    ELSE (IF (wlive \ wmaybe) \subseteq got THEN {} ELSE {<<l, "AckedLostOnRestart">>})
